@@ -43,6 +43,21 @@ impl Nullable for N2 {
     }
 }
 
+/// A zero-sized nullable that always reports itself as some (the option occupies no bytes).
+#[repr(transparent)]
+#[derive(Clone, Copy, PartialEq, Debug)]
+pub struct N0(pub [u8; 0]);
+unsafe impl Zeroable for N0 {}
+unsafe impl Pod for N0 {}
+impl Nullable for N0 {
+    fn is_some(&self) -> bool {
+        true
+    }
+    fn is_none(&self) -> bool {
+        false
+    }
+}
+
 fn tf(b: bool) -> String {
     (if b { "T" } else { "F" }).to_string()
 }
@@ -180,6 +195,7 @@ pub fn run(case: &Case, _full: bool, _fill: u8, out: &mut String) {
                 let sz = int(&op[1]);
                 let bytes = unhex(&op[2]);
                 match sz {
+                    0 => opt_case::<N0>(&bytes),
                     1 => opt_case::<N1>(&bytes),
                     2 => opt_case::<N2>(&bytes),
                     4 => opt_case::<N4>(&bytes),
